@@ -6,6 +6,7 @@ import (
 	"math/big"
 	"runtime/debug"
 	"strings"
+	"sync/atomic"
 
 	avm "github.com/artela-network/artela-evm/vm"
 	actypes "github.com/artela-network/aspect-core/types"
@@ -163,6 +164,31 @@ func (tx *Tx) initCode() []byte {
 
 func repoSite(stack string) string {
 	lines := strings.Split(stack, "\n")
+	// the frame that panicked: first frame after the runtime's panic machinery. If that frame
+	// is harness code the fault is ours, never the system's: report harness trouble (exit 2).
+	afterPanic := false
+	for _, l := range lines {
+		t := strings.TrimSpace(l)
+		if strings.HasPrefix(t, "panic(") {
+			afterPanic = true
+			continue
+		}
+		if !afterPanic || !strings.HasPrefix(t, "/") {
+			continue
+		}
+		if strings.Contains(t, "/runtime/") || strings.Contains(t, "/src/runtime") {
+			continue
+		}
+		if strings.HasPrefix(t, "/verif/") {
+			panic(harnessErr("panic raised inside harness code: " + t + "\n" + stack))
+		}
+		break
+	}
+	return firstRepoFrame(stack)
+}
+
+func firstRepoFrame(stack string) string {
+	lines := strings.Split(stack, "\n")
 	for i, l := range lines {
 		t := strings.TrimSpace(l)
 		if strings.HasPrefix(t, "/repo/") {
@@ -204,7 +230,10 @@ type SutEnv struct {
 	// hook to attach an inner tracer under test (C18/C19)
 	InnerTracer func(i int) (avm.EVMLogger, interface{})
 	Inners      []interface{}
+	evmP        atomic.Pointer[avm.EVM] // for the free-running canceller of the race tier
 }
+
+func (e *SutEnv) evmForRace() *avm.EVM { return e.evmP.Load() }
 
 func NewSutEnv(sc *Scenario, ex int, l *Log, tracer bool) *SutEnv {
 	InstallHost()
@@ -262,6 +291,7 @@ func (e *SutEnv) RunTx(i int) *TxResult {
 		}
 		e.EVM = avm.NewEVM(bc, txc, db, chainConfig(sc.Fork, sc.Block), cfg)
 		e.Host.EVM = e.EVM
+		e.evmP.Store(e.EVM)
 	}
 	e.EVMs = append(e.EVMs, e.EVM)
 	evmI := e.EVM
@@ -303,7 +333,7 @@ func (e *SutEnv) RunTx(i int) *TxResult {
 				}
 				if _, ok := r.(budgetExceeded); ok {
 					res.Budget = true
-					res.PanicSite = repoSite(string(debug.Stack()))
+					res.PanicSite = firstRepoFrame(string(debug.Stack()))
 					return
 				}
 				res.Panic = fmt.Sprint(r)
